@@ -27,4 +27,6 @@ def units():
         Unit("bsd_has_iff", P + "bsd_has_iff", F, "has_best_starting_depth(r) <=> r < T[0], all doubles incl. NaN"),
         Unit("bsd_must_panic", P + "bsd_must_panic", F, "radius >= T[0], +inf or NaN: refused by a panic on every path", kind="must_panic", allowed_fail=[r"Too large value"]),
         Unit("bsd_canary", P + "bsd_canary", F, "vacuity guard", kind="canary"),
+        Unit("c2v_dispatch_is_safe", P + "c2v_dispatch_is_safe", ["largest_center_to_vertex_distance", "largest_c2v_dist_in_npc", "largest_c2v_dist_in_eqr_top", "largest_c2v_dist_in_eqr_bottom", "(stub) lazy ConstantsC2V"], "every depth, equatorial region |lat| < asin(2/3): each region function is called inside its documented latitude range (no internal assertion fails, debug == release); polar-cap branch excluded (CBMC over-approximates the float remainder)", timeout=600),
+        Unit("c2v_with_radius_dispatch_is_safe", P + "c2v_with_radius_dispatch_is_safe", ["largest_center_to_vertex_distance_with_radius", "largest_c2v_dist_in_*_with_radius", "(stub) lazy ConstantsC2V"], "every depth, |lat| + radius < asin(2/3): same for the with-radius dispatch (this is the obligation that refuted the original code: finding D17)", timeout=600),
     ]
